@@ -41,15 +41,19 @@ def finish_case(rng, segs, c):
     if c["intervals"] and len(segs) > 1 and r2.random() < 0.35:
         # observer.interval is a public attribute: re-tuned between two run calls (log every step while equilibrating, every k-th afterwards)
         c["retune"] = {"seg": r2.randint(1, len(segs) - 1), "obs": r2.randrange(len(c["intervals"])), "interval": r2.choice([1, 2, 3, 5, -4, -8])}
+        if random.Random(c["seed"] ^ 0x15E).random() < 0.5:
+            c["retune"]["replace"] = True      # ... or a NEW observer is attached under the name of an existing one (attach_observer(name, other)): it takes its place
     return c
 
 
 def seg_obs(case, si):
     """observers (name, interval) in force during segment si"""
+    if case.get("mid"):
+        return [] if si == 0 else [(40, case["mid"]["interval"])]
     obs = model_obs(case)
     rt = case.get("retune")
     if rt and si >= rt["seg"]:
-        obs = [(nm, rt["interval"] if nm == 10 + rt["obs"] else iv) for nm, iv in obs]
+        obs = [((30 + rt["obs"] if rt.get("replace") else nm), rt["interval"]) if nm == 10 + rt["obs"] else (nm, iv) for nm, iv in obs]
     return obs
 
 
@@ -59,7 +63,7 @@ def oracle_retuned(case, r):
     steps = [e[1] for e in ev if e[0] == 2]
     if steps != list(range(n)) or r["step_count"] != n:
         why.append(f"steps performed {steps} / counter {r['step_count']} for {n} requested")
-    exp = {nm: [] for nm, _ in model_obs(case)}
+    exp = {nm: [] for si in range(len(case["segments"])) for nm, _ in seg_obs(case, si)} | {nm: [] for nm, _ in model_obs(case)}
     count, started = 0, False
     for si, seg in enumerate(case["segments"]):
         obs = seg_obs(case, si)
@@ -73,7 +77,11 @@ def oracle_retuned(case, r):
     for nm in exp:
         calls = [e[2] for e in ev if e[0] == 1 and e[1] == nm]
         if calls != exp[nm]:
-            why.append(f"observer {nm}: called at {calls}, expected {exp[nm]} (interval re-tuned to {case['retune']['interval']} before segment {case['retune']['seg']} of {case['segments']})")
+            if case.get("mid"):
+                why.append(f"observer attached during the iteration of the run generator after {case['mid']['at']} step(s) (interval {case['mid']['interval']}; the simulation had no observer when "
+                           f"the run call started): called at {calls}, expected {exp[nm]}")
+                continue
+            why.append(f"observer {nm}: called at {calls}, expected {exp[nm]} ({'replaced by a new observer under the same name, interval' if case['retune'].get('replace') else 'interval re-tuned to'} {case['retune']['interval']} before segment {case['retune']['seg']} of {case['segments']})")
     return why
 
 
@@ -126,6 +134,17 @@ def run(res: C.Result):
     for c in cases:
         if c["driver"] == "fbmc" and c["entry"] == "srun":
             c["entry"] = "irun"
+    # an observer attached WHILE a run generator is being iterated, on a simulation that had none when the run call started ("files can be changed at any
+    # time during the simulation"): from the next completed step on it follows its schedule.  Written as two virtual segments [at, n - at].
+    r11 = random.Random(res.seed ^ 0x15A77)
+    for k in range(12 if res.tier == "quick" else 150):
+        n_ = r11.randint(3, 12)
+        at = r11.randint(0, n_ - 1)
+        drv = r11.choice(["canonical", "fbmc"])
+        cases.append({"driver": drv, "intervals": [], "logger": None, "traj": None, "segments": [at, n_ - at], "entry": "irun" if drv == "fbmc" else r11.choice(["irun", "srun"]),
+                      "seed": r11.randint(1, 2**31), "geom_seed": r11.randint(0, 10**6), "logging_interval": 1, "streams": False,
+                      "mid": {"at": at, "interval": r11.choice([1, 1, 2, 3, -(at + 1), -(at + 2)])}})
+    ncases = len(cases)
     base_cases = [dict(c, segments=[sum(c["segments"])], entry="run") for c in cases]
     allc = cases + base_cases
     outs = C.run_impl_parallel("c15.py", [{"cases": allc[i::16]} for i in range(16)])
@@ -148,10 +167,14 @@ def run(res: C.Result):
             continue
         if len(c["segments"]) > 1 and model_obs(c):
             distinct.add((tuple(c["segments"]), tuple(model_obs(c)), c["entry"]))
-        why = oracle_retuned(c, r) if c.get("retune") else oracle(c, r, b)
+        why = oracle_retuned(c, r) if (c.get("retune") or c.get("mid")) else oracle(c, r, b)
         if c.get("retune"):
             dist["retuned"] = dist.get("retuned", 0) + 1
-        if why and c.get("retune"):
+        if c.get("mid"):
+            dist["attached_mid_loop"] = dist.get("attached_mid_loop", 0) + 1
+        if why and c.get("mid"):
+            res.fail("observer-attached-during-the-loop", "; ".join(why[:3]), {"input": c, "observed": {"events": r["events"], "step_count": r["step_count"]}})
+        elif why and c.get("retune"):
             res.fail("interval-retuned-between-runs", "; ".join(why[:3]), {"input": c, "observed": {"events": r["events"], "step_count": r["step_count"]}})
         elif why:
             sig = "zero-length-segment-at-step-0" if c["segments"][0] == 0 and len(c["segments"]) > 1 else "other"
